@@ -771,11 +771,20 @@ func (c *Ctx) ruleLocalIDStable(rule string) {
 				}
 				base := fa.X
 				if u, ok := base.(*ssa.UnOp); ok { // captured by a closure
-					if fv, ok := u.X.(*ssa.FreeVar); ok && fv.Name() == newPath.Name() {
+					if fv, ok := u.X.(*ssa.FreeVar); ok && cellOfFreeVarIsParam(fv, newPath) {
 						base = newPath
 					}
 				}
-				if base == ssa.Value(newPath) && fieldLoadName(st.Val) == "localID" {
+				// the value stored is another path's identifier: the field itself or its accessor LocalID()
+				fromID := fieldLoadName(st.Val) == "localID"
+				if call, ok := stripConv(st.Val).(*ssa.Call); ok {
+					if cal := call.Call.StaticCallee(); cal != nil && len(cal.Blocks) == 1 {
+						if ret, ok := cal.Blocks[0].Instrs[len(cal.Blocks[0].Instrs)-1].(*ssa.Return); ok && len(ret.Results) == 1 && fieldLoadName(ret.Results[0]) == "localID" {
+							fromID = true
+						}
+					}
+				}
+				if base == ssa.Value(newPath) && fromID {
 					stores = append(stores, st)
 				}
 			}
@@ -1848,4 +1857,19 @@ func (c *Ctx) ruleCheckedIsEmitted(rule string) {
 	} else {
 		r.Bad(rule, fk, "tested length = emitted length", c.P.InstrPos(cpos), "the size test looks at "+strings.Join(checked, " + ")+" but the header announces "+strings.Join(emitted, " + ")+": a message within the tested bound can exceed the session's limit on the wire")
 	}
+}
+
+// cellOfFreeVarIsParam: the captured variable is (the spilled copy of) the given parameter — by identity, not by name.
+func cellOfFreeVarIsParam(fv *ssa.FreeVar, p *ssa.Parameter) bool {
+	cell := cellOfFreeVar(fv)
+	al, ok := cell.(*ssa.Alloc)
+	if !ok || al.Referrers() == nil {
+		return false
+	}
+	for _, ref := range *al.Referrers() {
+		if st, ok := ref.(*ssa.Store); ok && st.Addr == ssa.Value(al) && st.Val == ssa.Value(p) {
+			return true
+		}
+	}
+	return false
 }
